@@ -1168,21 +1168,21 @@ def evaluate__xml_to_json(self: XPathFunction, context: ta.ContextType = None) \
                 continue
 
             if child.tag == NULL_TAG:
-                check_attributes('key')
+                check_attributes('key', 'escaped-key')
                 if child.text is not None:
                     msg = 'a null element cannot have a text value'
                     raise self.error('FOJS0006', msg)
                 chunks.append('null')
 
             elif child.tag == BOOLEAN_TAG:
-                check_attributes('key')
+                check_attributes('key', 'escaped-key')
                 if BooleanProxy(''.join(etree_iter_strings(child))):
                     chunks.append('true')
                 else:
                     chunks.append('false')
 
             elif child.tag == NUMBER_TAG:
-                check_attributes('key')
+                check_attributes('key', 'escaped-key')
                 value = ''.join(etree_iter_strings(child))
                 try:
                     if self.parser.xsd_version == '1.0':
@@ -1216,7 +1216,7 @@ def evaluate__xml_to_json(self: XPathFunction, context: ta.ContextType = None) \
                 chunks.append(f'"{value}"')
 
             elif child.tag == ARRAY_TAG:
-                check_attributes('key')
+                check_attributes('key', 'escaped-key')
                 if len(child):
                     if child.text is not None and child.text.strip() or \
                             any(e.tail and e.tail.strip() for e in child):
